@@ -1807,6 +1807,32 @@ fn gen(a: &Args) {
             }
         }
     }
+    if matches!(prop, "C04" | "C02" | "C03" | "C08") {
+        // MANY workers (the availability bitset has four 128-bit words, 512 indices): every worker is marked available
+        // at start-up and takes its turn; limit 1 saturates them one by one, releases re-open exactly those
+        let sizes: &[usize] = if thorough { &[31, 32, 33, 64, 65, 127, 128, 129, 130, 255, 256, 257, 383, 384, 385, 511, 512] } else { &[33, 129, 130, 257, 512] };
+        for (k, wk) in sizes.iter().enumerate() {
+            writeln!(w, "case many-workers-{wk} workers={wk} limit=1 listeners=tcp").unwrap();
+            let n = if *wk > 120 { 120 } else { *wk };
+            // the listen backlog holds ~128: connect in waves
+            let mut sent = 0;
+            while sent < wk + 2 {
+                let wave = n.min(wk + 2 - sent);
+                for _ in 0..wave {
+                    writeln!(w, "connect 0").unwrap();
+                }
+                writeln!(w, "poll").unwrap();
+                sent += wave;
+            }
+            writeln!(w, "poll").unwrap();
+            // the last, the first of the upper words and some in between take a connection, finish it, and get the next
+            for wi in [wk - 1, wk / 2, (k * 37) % wk, 0] {
+                writeln!(w, "env recv:{wi},finish:{wi}:*").unwrap();
+                writeln!(w, "poll").unwrap();
+                writeln!(w, "poll").unwrap();
+            }
+        }
+    }
     if prop == "C03" {
         // a server with listeners handed over every way the builder accepts them serves what waits after a pause
         writeln!(w, "case builder-listeners workers=1 limit=1 listeners=tcp").unwrap();
